@@ -16,7 +16,9 @@ THEOREMS = [_T + n for n in [
     "C14_ids_distinct", "C14_rejects_nonpositive", "C14_default_hop", "C14_bound_irrelevant",
     "C14_holds_iff", "C14_pinned_bound_loses_windows",
     # review R-C14
-    "C14_count", "C14_bound_ge", "C14_name_injective", "C14_full", "C14_complete_tail"]]
+    "C14_count", "C14_bound_ge", "C14_name_injective", "C14_full", "C14_complete_tail",
+    # histories
+    "C14_history"]]
 LEVEL_TEXT = ("Lean theorems over a loop-level model of segment_clip (after fix C14-1: loop bound ceil(duration/hop)), for all "
               "rational clip bounds, durations, hops and both flags: the i-th segment is the lattice window start + i*hop "
               "truncated at the clip end; the result contains exactly the windows that fit (resp. start inside the clip); "
@@ -40,7 +42,11 @@ LEVEL_NOTE = ("Trusted: Lean kernel, the Python harness and symbolic tracer, the
 TECHNIQUE = ("Lean 4 proof over a loop-level model (induction on the loop bound); symbolic-trace equality obligations "
              "regenerated from the source with an oracle loop bound; exhaustive dyadic-grid correspondence with exact "
              "comparison; recomputed uuid5 names; float monitor in free mode")
-RULE = ("exhaustive dyadic grid of clip start/end x duration x hop (hop <, =, > duration; clip length exact and non-exact "
+RULE = ("histories (segment_history): 160 / 1600 sequences of 3-5 calls in one process - a case, neighbours of it (other flag / "
+        "hop / duration / clip end), the case again - on fresh clips and on the previous clip object changed by assignment, "
+        "model_copy(update) shallow and deep, deepcopy + assignment; arguments snapshotted around every call; returned "
+        "segments edited by the caller (poison) and earlier results re-read after later calls; every step judged by the "
+        "model alone (theorem C14_history).  exhaustive dyadic grid of clip start/end x duration x hop (hop <, =, > duration; clip length exact and non-exact "
         "multiples of the hop) x both flags, plus random dyadic cases (floats, ints, numpy float64), clip ends 2^-10..2^-40 "
         "off a lattice point or window end, hops of 2^-22, and decimal cases; non-trivial = the implementation "
         "yielded at least one segment; distinct = distinct (operation, input)")
